@@ -9,3 +9,7 @@ CONSTANTS
 CHECK_DEADLOCK FALSE
 
 INVARIANT Export
+INVARIANT FramesRight
+INVARIANT HeadDecodes
+INVARIANT ChannelShape
+INVARIANT ReceiverIndependent
